@@ -4,3 +4,8 @@ from .kernels import run_c10
 
 def run(ctx):
     run_c10(ctx)
+    # the Vector primitives the momentum map, the shift, the u vectors and V are written in (restated from C20-b: the formulas above
+    # use them by definition, so an error in one of them — e.g. a `squared` that mishandles D >= 5 — breaks the property unseen)
+    from .kernels import run_c20b
+    ctx.rule("C10-f", "the Vector primitives used by the momentum map, u and V are componentwise: a+b, a−b, a·s, dot = Σ_i a_i·b_i, squared = Σ_i a_i²")
+    run_c20b(ctx, "C10-f", only=("add", "sub", "mul-by-value", "mul-by-ref", "dot", "ctors"))
